@@ -38,6 +38,18 @@ for f in ("curve25519.go","batchverifier.go","vrf.go"):
     if not os.path.exists(dst) or open(dst).read()!=s:
         open(dst,"w").write(s)
     rep[src]=dst
+# add-only export shims: every file under /verif/hooks/<path> is overlaid as /repo/<path>
+# (build tag verif; nothing is written under /repo). They must not exist in /repo.
+hk="/verif/hooks"
+for root,_,files in os.walk(hk):
+    for f in files:
+        if not f.endswith(".go"): continue
+        src=os.path.join(root,f)
+        rel=os.path.relpath(src,hk)
+        dst=os.path.join(repo,rel)
+        if os.path.exists(dst):
+            sys.stderr.write("hook %s collides with a file in /repo\n"%rel); sys.exit(1)
+        rep[dst]=src
 new=json.dumps({"Replace":rep},indent=1,sort_keys=True)
 p="/verif/build/overlay.json"
 if not os.path.exists(p) or open(p).read()!=new:
